@@ -222,9 +222,14 @@ class IncrementalExecutor(Executor[DeliveryGroupMap]):
         awaitables: list[Any] = []
         is_awaitable = self.is_awaitable
         for task in self.tasks:
-            abort_result = task.computation.abort(reason)
+            computation = task.computation
+            pending_future = computation.pending_future
+            abort_result = computation.abort(reason)
             if is_awaitable(abort_result):
                 awaitables.append(abort_result)
+            if pending_future is not None:
+                # also wait until the cancelled computation has been unwound
+                awaitables.append(pending_future)
         for stream in self.streams:
             abort_result = stream.queue.abort(reason)
             if is_awaitable(abort_result):
